@@ -8,7 +8,17 @@ use rayon::prelude::*;
 use crate::model::{Content, State};
 
 pub fn write_file(key: &String, content: &Content, to: &PathBuf) -> std::io::Result<()> {
-    fs::write(to.clone().join(format!("{}.md", key)), content.as_str())
+    let path = to.join(format!("{}.md", key));
+    let temp = to.join(format!("{}.md.tmp", key));
+
+    // never truncate the note itself: a failed or interrupted write must leave the old text
+    // intact, so the new text goes to a sibling file that then replaces the note atomically
+    fs::write(&temp, content.as_str())
+        .and_then(|_| fs::rename(&temp, &path))
+        .map_err(|err| {
+            let _ = fs::remove_file(&temp);
+            err
+        })
 }
 
 pub fn new_for_path(base_path: &PathBuf) -> State {
